@@ -111,7 +111,7 @@ func (w *nftWorkload) dataField(cur string) (string, string) {
 	}
 }
 
-var nftOddClassIDs = []string{"tibc-art", "tibc-art\x00vip", "tibcart", "ibcart", "pegasus", "htltx", "cls/a", "cls/a/b", "Upper1", "ab", "a-b-c", "cls\x00a"}
+var nftOddClassIDs = []string{"tibc-art", "tibc-art\x00vip", "tibcart", "ibcart", "pegasus", "htltx", "cls/a", "cls/a/b", "Upper1", "ab", "a-b-c", "cls\x00a", "artAB", "artab"}
 
 // Next generates 1..4 NFT txs.
 func (w *nftWorkload) Next(block int) []rig.Tx {
@@ -216,7 +216,16 @@ func (w *nftWorkload) Next(block int) []rig.Tx {
 			c := w.model[cid]
 			actor := w.actor(c.Creator, "")
 			tid := fmt.Sprintf("tok%d", w.nTok)
-			if len(c.Toks) > 0 && rng.Intn(6) == 0 {
+			if other := w.model[classes[rng.Intn(len(classes))]]; rng.Intn(8) == 0 && other != c && len(other.Toks) > 0 {
+				// a token id that another class already uses (ids are unique within a class only)
+				ids := sortedToks(other)
+				if cand := ids[rng.Intn(len(ids))]; c.Toks[cand] == nil {
+					tid = cand
+					w.run.Count("token-id-of-another-class-minted", 1)
+				} else {
+					w.nTok++
+				}
+			} else if len(c.Toks) > 0 && rng.Intn(6) == 0 {
 				for k := range sortedToks(c) {
 					_ = k
 				}
